@@ -14,7 +14,9 @@ echo "== without change: demo"; (cd $wt/$mod && go test -vet=off -count=1 -run "
 git apply seed/patch.diff; rm $wt/$dst
 echo "== with change: suite"; (cd $wt/$mod && go test -vet=off -count=1 $pkg/... 2>&1 | tail -4)
 mkdir -p /verif/seeded/$id && cp seed/patch.diff seed/demo_test.go seed/meta.json /verif/seeded/$id/
-cd /repo && git apply /verif/seeded/$id/patch.diff && cd /verif
-for q in "$@"; do echo "== check $q"; VERIF_NOEVIDENCE=1 ./bin/govc check -prop $q 2>&1 | grep -v "^NOTE" | tail -3; done
-cd /repo && git apply -R /verif/seeded/$id/patch.diff; git status --short | grep -v verif_contracts
+# SEED_REPO: a private checkout of /repo's HEAD to run the checks against (default: /repo itself)
+R=${SEED_REPO:-/repo}
+cd $R && git apply /verif/seeded/$id/patch.diff && cd /verif
+for q in "$@"; do echo "== check $q"; VERIF_NOEVIDENCE=1 ./bin/govc check -repo $R -prop $q 2>&1 | grep -v "^NOTE" | tail -3; done
+cd $R && git apply -R /verif/seeded/$id/patch.diff; git status --short | grep -v verif_contracts
 git -C /repo worktree remove --force $wt; git -C /repo worktree prune
